@@ -8,7 +8,14 @@ import urlgen
 
 ID = "C02"
 LEAN_MODULE = "UralModel.Props.C02"
-THEOREMS = []
+THEOREMS = [
+    "Ural.Props.C02.clean_control_irrelevant",
+    "Ural.Props.C02.stripControl_insert",
+    "Ural.Props.C02.strip_surrounding",
+    "Ural.Props.C02.canon_default_port",
+    "Ural.Props.C02.hex_case_irrelevant",
+    "Ural.Props.C02.host_idempotent",
+]
 TABLE_OBLIGATIONS = []
 RULE = (
     "A case is a base URL (structured components over the quantifier's token alphabet) plus a "
@@ -30,7 +37,12 @@ ASSUMPTIONS = [
     "a raw space at the very start or end of the URL is 'surrounding whitespace', not a space of a component: such pairs are not generated",
     "URLs that the parser rejects are outside the property",
 ]
-UNPROVED = ""
+UNPROVED = (
+    "idempotence of the whole function, escape-equivalence (%41 vs A, raw space vs %20), dot-segment "
+    "insertion, punycode vs Unicode spelling of a label (beyond the host rule's idempotence) and the mode "
+    "round trips are not theorems: decided on every run by the oracle over every transformation of the "
+    "statement and by the model-vs-implementation comparison of both spellings"
+)
 OPTS = [(False, False), (True, False), (False, True), (True, True)]
 TN = sorted(urlgen.C02_TRANSFORMS)
 
